@@ -20,6 +20,20 @@ package asr
 //@   loop 9
 //@     complete [all_iterations_no_early_exit]
 //@     step [one_step_per_child_lacking_the_kept_state] next(nsteps[j]) == atHead(nsteps[j]) + (child != prev && seqs[child.id].seq[j].counts[maxState] == 0.0 ? 1 : 0)
+//@   loop 1
+//@     complete [all_iterations_no_early_exit]
+//@   loop 3
+//@     complete [all_iterations_no_early_exit]
+//@   loop 4
+//@     complete [all_iterations_no_early_exit]
+//@   loop 5
+//@     complete [all_iterations_no_early_exit]
+//@   loop 6
+//@     complete [all_iterations_no_early_exit]
+//@   loop 7
+//@     complete [all_iterations_no_early_exit]
+//@   loop 8
+//@     complete [all_iterations_no_early_exit]
 
 //@ func asr.computeParsimony
 //@   requires len(currentStates.counts) >= len(neighborStates.counts)
@@ -51,11 +65,37 @@ package asr
 //@   call asr.computeParsimony@L2 [up_state_of_a_child_at_a_site_from_a_buffer_made_for_that_child_and_site] freshiter(a0.counts) && a1.counts == upseqs[child.id].seq[j].counts && child != prev
 //@   call asr.computeParsimony@L6 [state_of_the_node_at_a_site_from_a_buffer_made_for_that_site] freshiter(a0.counts) && a1.counts == seqs[cur.id].seq[j].counts && prev != nil
 //@   call asr.parsimonyDOWNPASS [recursion_goes_to_the_children_only_with_the_same_tables] a0 == child && child != prev && a1 == cur && a3 == seqs && a4 == upseqs
+//@   loop 1
+//@     complete [all_iterations_no_early_exit]
+//@   loop 2
+//@     complete [all_iterations_no_early_exit]
+//@   loop 3
+//@     complete [all_iterations_no_early_exit]
+//@   loop 4
+//@     complete [all_iterations_no_early_exit]
+//@   loop 5
+//@     complete [all_iterations_no_early_exit]
+//@   loop 6
+//@     complete [all_iterations_no_early_exit]
+//@   loop 7
+//@     complete [all_iterations_no_early_exit]
+//@   loop 8
+//@     complete [all_iterations_no_early_exit]
+//@   loop 9
+//@     complete [all_iterations_no_early_exit]
+//@   loop 10
+//@     complete [all_iterations_no_early_exit]
 
 // randomlyResolveNodeStates keeps one of the retained states, drawn with math/rand: rewrites state counts only (thin)
 //@ func asr.randomlyResolveNodeStates
 //@   requires node != nil
 //@   assigns elems("float64"), ghost(rand_count), ghost(rand_last), ghost(rand_range)
+//@   loop 1
+//@     complete [all_iterations_no_early_exit]
+//@   loop 2
+//@     complete [all_iterations_no_early_exit]
+//@   loop 3
+//@     complete [all_iterations_no_early_exit]
 
 // ---------------------------------------------------------------------------
 // DELTRAN, sequences (property C12): at every site a non-root inner node keeps exactly the states it shares with its
@@ -86,6 +126,8 @@ package asr
 //@     invariant [node_keeps_exactly_the_states_shared_with_its_parent_at_this_site] forall k int :: {ances.counts[k]} 0 <= k && k < len(charToIndex) ==> ances.counts[k] == (k <= rangeindex ? (lold(ances.counts[k]) + lold(seqs[prev.id].seq[j].counts[k]) > 1.0 ? 1.0 : 0.0) : lold(ances.counts[k]))
 //@     invariant [table_shape] siteok(seqs, cur.id, prev.id, len(charToIndex)) && ances.counts == seqs[cur.id].seq[j].counts && 0 <= j && j < len(seqs[cur.id].seq) && !fresh_arr(ances.counts) && !fresh_arr(seqs[prev.id].seq[j].counts)
 //@     invariant [parent_untouched] (forall k int :: {seqs[prev.id].seq[j].counts[k]} 0 <= k && k < len(charToIndex) ==> seqs[prev.id].seq[j].counts[k] == lold(seqs[prev.id].seq[j].counts[k]))
+//@   loop 5
+//@     complete [all_iterations_no_early_exit]
 
 // ---------------------------------------------------------------------------
 // ACCTRAN, sequences (property C12): at every site every child of a node keeps exactly the states it shares with that
@@ -119,6 +161,8 @@ package asr
 //@     invariant [child_keeps_exactly_the_states_shared_with_the_node_at_this_site] forall k int :: {seqs[child.id].seq[j].counts[k]} 0 <= k && k < len(charToIndex) ==> seqs[child.id].seq[j].counts[k] == (k <= rangeindex ? (lold(seqs[child.id].seq[j].counts[k]) + lold(ances.counts[k]) > 1.0 ? 1.0 : 0.0) : lold(seqs[child.id].seq[j].counts[k]))
 //@     invariant [table_shape] siteok(seqs, cur.id, child.id, len(charToIndex)) && ances.counts == seqs[cur.id].seq[j].counts && 0 <= j && j < len(seqs[cur.id].seq) && !fresh_arr(ances.counts) && !fresh_arr(seqs[child.id].seq[j].counts)
 //@     invariant [node_untouched] forall k int :: {ances.counts[k]} 0 <= k && k < len(charToIndex) ==> ances.counts[k] == lold(ances.counts[k])
+//@   loop 6
+//@     complete [all_iterations_no_early_exit]
 
 // ParsimonyAsr (property C12): the alphabet is the alignment's alphabet followed by the gap and the "other" character and
 // character k of it gets index k; node i of the node list gets identifier i and a sequence of the alignment's length over
